@@ -302,9 +302,22 @@ func (r *Replayer) Run(vecs []*Vector) ([]*NativeResult, error) {
 		for _, i := range plain[lo:hi] {
 			pf = append(pf, files[i])
 		}
-		b, _ := r.runNative(pf, nil, 180*time.Second)
+		b, _ := r.runNative(pf, nil, 90*time.Second)
 		if err := r.collect(pf, plain[lo:hi], out, b); err != nil {
 			return nil, err
+		}
+		// once a hang (or crash) of the native call is established, the remaining batches are not needed
+		stop := false
+		for _, i := range plain[lo:hi] {
+			if out[i] != nil && (strings.HasPrefix(out[i].Panic, "hang:") || strings.HasPrefix(out[i].Panic, "crash:")) {
+				stop = true
+			}
+		}
+		if stop {
+			for _, i := range plain[hi:] {
+				out[i] = &NativeResult{Assumed: true}
+			}
+			break
 		}
 	}
 	return out, nil
